@@ -213,6 +213,11 @@ func (o *FilterOptimizer) optimizeBetweenExpr(e *BinaryOpExpr) *ScanType {
 	}
 
 	if field == KeyKW && canUseRange {
+		if bytes.Compare(lower, upper) > 0 {
+			// No key lies between such boundaries (and the combinators
+			// below expect start <= end)
+			return &ScanType{EMPTY, nil}
+		}
 		return &ScanType{RANGE, [][]byte{lower, upper}}
 	}
 	return &ScanType{FULL, nil}
@@ -583,6 +588,15 @@ func (o *FilterOptimizer) unionPrefix(l, r *ScanType) *ScanType {
 	return &ScanType{FULL, nil}
 }
 
+// sameBound tells whether two range bounds are the same: both open (nil),
+// or both the same key. An open bound is not the empty key.
+func sameBound(a, b []byte) bool {
+	if a == nil || b == nil {
+		return a == nil && b == nil
+	}
+	return bytes.Equal(a, b)
+}
+
 func inRange(start, end, val []byte, isEnd bool) bool {
 	// A nil val is an open bound: +inf when it is an end, -inf when it is a start
 	if val == nil {
@@ -625,7 +639,7 @@ func (o *FilterOptimizer) intersectionRange(l, r *ScanType) *ScanType {
 	}
 
 	// Same range just return left
-	if bytes.Compare(lstart, rstart) == 0 && bytes.Compare(lend, rend) == 0 {
+	if sameBound(lstart, rstart) && sameBound(lend, rend) {
 		return l
 	}
 
@@ -690,7 +704,7 @@ func (o *FilterOptimizer) unionRange(l, r *ScanType) *ScanType {
 	}
 
 	// Same range just return left
-	if bytes.Compare(lstart, rstart) == 0 && bytes.Compare(lend, rend) == 0 {
+	if sameBound(lstart, rstart) && sameBound(lend, rend) {
 		return l
 	}
 
@@ -787,7 +801,8 @@ func (o *FilterOptimizer) intersectionPrefixAndRange(prefix, srange *ScanType) *
 
 	if inRange(rstart, rend, pstart, false) {
 		// | RS | PS | RE | ...
-		if bytes.HasPrefix(rend, pstart) {
+		// (an open end has no bytes: it is not a key with the prefix)
+		if rend != nil && bytes.HasPrefix(rend, pstart) {
 			// | RS | PS | RE | PE |
 			if bytes.Equal(pstart, rend) {
 				return &ScanType{MGET, [][]byte{pstart}}
